@@ -6,7 +6,11 @@ ADC, SBB, INC, DEC, NEG, NOT, AND, OR, XOR, MOV-likes, LEA-free), the written va
 abstraction modulo 2^4 for all 256 residue pairs (x carry-in) and compared with the architectural result: Z/2^64 → Z/2^4
 is a ring homomorphism, so this decides the low four result bits for *all* operand values. **access**: a success path
 without a write to a read-write operand 0 is accepted only when the value handed to the flag setter is the operand's own
-entry value at its width and the destination is not a 32-bit register (the write is what zero-extends).""",
+entry value at its width and the destination is not a 32-bit register (the write is what zero-extends); for counted
+shifts the question is decided per count by the 256-count sweep. **dispatch** (round 2): every handler analysis (C01, C02,
+C03, C04, C06, C18, C19, C20) starts at the mnemonic's dispatcher with `i.code()` as the constant, so code around the
+handler call is part of the instruction; the top-level dispatcher is interpreted per mnemonic and must make exactly one
+call, to the bound dispatcher, return its result and touch nothing itself.""",
 "C02": """*As built (rounds 1–2).* Rules `class, count, reads, setter, setter.zsp, result`. **setter.zsp**: each of the four
 flag setters is interpreted for all 256 low result bytes x {upper bits clear, only the sign bit, one middle bit} and every
 requested-flag class; ZF/SF/PF must equal the architectural functions of the result (3 328 evaluations, exhaustive for
@@ -78,6 +82,9 @@ the zero-fill primitive.""",
 "C17": """*As built (round 2).* Added **retry**: the error of creating the stack area at a candidate address is never the
 function's result (the search goes on) unless the very same (start, size) range was probed by a range predicate before
 (seeded change S18: probe with `length`, allocate `length + 8n`).""",
+"C18": """*As built (round 2).* **total** additionally triages every overflow / bounds check on the paths of `trace()` and
+`call_stack()`: a check on machine state (a vector length, a level, an address) is reported unless the path establishes
+it by a dominating comparison or, for `len(X) - k`, by k elements already taken from an iterator over X.""",
 "C19": """*As built (round 2).* Added **slices**: the 20 slice/index/copy sites of the cone are either inside the three
 bounds-analysed accessors (decided for all endpoint orderings by C08.bounds + C08.invariant) or carry a relational
 obligation discharged on every path of their function (pipe read: min(); trace: loop guard; mem_read_8: constant below
